@@ -83,6 +83,27 @@ Example C10_ex_slow_reader_served :
   = [true; true; true; true; true; false].
 Proof. vm_compute. reflexivity. Qed.
 
+(* SEVERAL WRITERS OF ONE BLOB (the downloader's peer race; composition with C01's writer set).  blob_write mirrors
+   AbstractBlob.writers + writer_finished_callback: only a writer that finished with verified bytes closes the others.
+   A writer that ends otherwise (corrupted / short / excess / cancelled / still open) leaves every other writer of the
+   blob exactly as it was ... *)
+Theorem C10_failing_writer_leaves_others :
+  forall (H : bytes -> bytes) (hash : bytes) (len : option Z) (ws : list writer) (i : nat) (data : bytes) (w : writer) (j : nat),
+    nth_error ws i = Some w ->
+    w_fin (fst (writer_write H hash len w data)) <> WResult -> i <> j ->
+    nth_error (blob_write H hash len ws i data) j = nth_error ws j.
+Proof. exact failing_writer_leaves_others. Qed.
+Print Assumptions C10_failing_writer_leaves_others.
+
+(* ... and a writer closes the others only with bytes that hash to the blob hash and have the blob length *)
+Theorem C10_closing_writer_verified :
+  forall (H : bytes -> bytes) (hash : bytes) (L : Z) (ws : list writer) (i : nat) (data : bytes) (w : writer),
+    nth_error ws i = Some w -> w_fin w = WPending -> w_closed w = false ->
+    w_fin (fst (writer_write H hash (Some L) w data)) = WResult ->
+    H (w_data w ++ data) = hash /\ zlen (w_data w ++ data) = L.
+Proof. exact closing_writer_verified. Qed.
+Print Assumptions C10_closing_writer_verified.
+
 (* ------------------------------------------------------------------ CLIENT *)
 
 (* FRAGMENTATION.  hdr is an honest header: python-json reads it as response r at its end, it ends in '}', no proper
@@ -147,18 +168,39 @@ Theorem C10_lying_peer_never_poisons :
 Proof. exact never_poisons. Qed.
 Print Assumptions C10_lying_peer_never_poisons.
 
-(* NEVER OVER LENGTH: the writer is never handed more than the blob's length, nothing without a length. *)
+(* NEVER OVER LENGTH: while the writer is open it holds at most the blob's length (nothing without a length), and
+   every single _write in such a state stays within the length. *)
 Theorem C10_never_over_length :
   forall (H : bytes -> bytes) (json_loads : bytes -> jres) (c0 : client) (hash : bytes) (known : option Z) (evs : list event),
     match known with Some k => 0 <= k | None => True end ->
     zlen (c_buf c0) <= MAX_RESPONSE_SIZE ->
     let c := run H json_loads (request hash known c0) evs in
-    match c_len c with
-    | Some L => zlen (w_data (c_w c)) <= L /\ c_received c <= L
-    | None => w_data (c_w c) = [] /\ c_received c = 0
-    end.
+    (w_closed (c_w c) = false ->
+     match c_len c with
+     | Some L => zlen (w_data (c_w c)) <= L /\ c_received c <= L
+     | None => w_data (c_w c) = [] /\ c_received c = 0
+     end) /\
+    (forall data L, c_len c = Some L -> w_closed (c_w c) = false ->
+       zlen (w_data (c_w (fst (cl_write H c data)))) <= L).
 Proof. exact never_over_length. Qed.
 Print Assumptions C10_never_over_length.
+
+(* A PEER-LEARNED LENGTH IS FORGOTTEN (fix 1ef0969).  A blob requested with an unknown length: whatever length a peer
+   announces and whatever happens afterwards, once that download has ended "closed" or "cancelled" without the blob
+   being verified, the blob's length is unknown again ... *)
+Theorem C10_peer_learned_length_forgotten :
+  forall (H : bytes -> bytes) (json_loads : bytes -> jres) (c0 : client) (hash : bytes) (evs : list event),
+    let c := run H json_loads (request hash None c0) evs in
+    failed (c_phase c) -> c_verified c = None -> c_len c = None /\ c_att c = false.
+Proof. exact peer_learned_length_forgotten. Qed.
+Print Assumptions C10_peer_learned_length_forgotten.
+
+(* ... so a later honest download of the same blob is not refused for its length (with C10_request_starts and
+   C10_honest_transfer_completes, instantiated with known = None, it completes). *)
+Theorem C10_retry_not_refused_for_length :
+  forall (hash : bytes) (n : Z) (r : response), acceptable hash (Some n) r = true -> acceptable hash None r = true.
+Proof. exact retry_not_refused_for_length. Qed.
+Print Assumptions C10_retry_not_refused_for_length.
 
 (* RESPONSE CAP: the client never holds more than MAX_RESPONSE_SIZE unrecognised bytes ... *)
 Theorem C10_client_buffer_bounded :
